@@ -121,9 +121,9 @@ Fixpoint all_envs (atoms : list N) : list env :=
   | [] => [[]]
   | a :: t => flat_map (fun b => map (cons (a, b)) (all_envs t)) [false; true]
   end.
-Fixpoint choice_factors (all cs : list clause) (choices : list nat) (r : env) : Q :=
+Fixpoint choice_factors (cs : list clause) (choices : list nat) (r : env) : Q :=
   match cs, choices with
-  | c :: t, ci :: ct => nth ci (choice_row c r) 0 * choice_factors all t ct r
+  | c :: t, ci :: ct => nth ci (choice_row c r) 0 * choice_factors t ct r
   | _, _ => 1
   end.
 Fixpoint or_factors (atoms : list N) (cs : list clause) (choices : list nat) (r : env) : Q :=
@@ -133,7 +133,7 @@ Fixpoint or_factors (atoms : list N) (cs : list clause) (choices : list nat) (r 
               * or_factors t cs choices r
   end.
 Definition joint (atoms : list N) (cs : list clause) (choices : list nat) (r : env) : Q :=
-  choice_factors cs cs choices r * or_factors atoms cs choices r.
+  choice_factors cs choices r * or_factors atoms cs choices r.
 Definition bn_marginal (atoms : list N) (cs : list clause) (ev : env -> bool) : Q :=
   Qsum (flat_map (fun ch => map (fun r => if ev r then joint atoms cs ch r else 0) (all_envs atoms)) (all_choices cs)).
 
